@@ -342,6 +342,11 @@ fn c17_base(b: &MBoard, gold: bool, step: u8, pend: Pend, base_name: &str, sink:
                 }
             }
         }
+        if sink.want_sample() && (name.starts_with("status") || name.starts_with("square_content:d4")) {
+            let mut first: Vec<String> = seen.iter().take(3).map(|(h, l)| format!("{} -> {:#018x}", l, h)).collect();
+            first.sort();
+            sink.sample(json!({"base": base_name, "family": name, "variants_in_family": n, "some_variants": first}));
+        }
         sink.add(&format!("pairs_{}", name.split(':').next().unwrap()), n * (n.saturating_sub(1)) / 2);
         sink.add("pairs_compared", n * (n.saturating_sub(1)) / 2);
         sink.add("hash_evaluations", n);
